@@ -91,6 +91,13 @@ func SetIdleMapMode(m MapMode, seed uint64) {
 	envMapRng = &rng{s: seed}
 }
 
+// idleTape feeds the entropy seam in scenarios that run without a scheduler
+// (sequential engines): identifiers goa generates are then part of the replayable run.
+var idleTape *Tape
+
+// SetIdleTape installs (or, with nil, removes) the tape used while no Sim is active.
+func SetIdleTape(t *Tape) { idleTape = t }
+
 // SetIdleClock fixes what Now returns while no simulation is running (setup
 // code that constructs clock-reading objects); nil restores the real clock.
 func SetIdleClock(t *time.Time) { envClock = t }
@@ -101,6 +108,12 @@ type tapeReader struct{}
 func (tapeReader) Read(p []byte) (int, error) {
 	s := active
 	if s == nil {
+		if it := idleTape; it != nil {
+			for i := range p {
+				p[i] = byte(it.Draw("entropy", 256))
+			}
+			return len(p), nil
+		}
 		return crand.Reader.Read(p)
 	}
 	for i := range p {
